@@ -159,16 +159,18 @@ class DirectoryResourcePopulator:
                     continue
 
                 # Prepare some paths for map insertion
-                relpath = pt.relpath(full_file_path, root)
-                resource_string = pt.normpath(relpath).replace(
-                    pt.sep, ResourceMap.split_char)
+                relpath = pt.normpath(pt.relpath(full_file_path, root))
                 # The root itself (a rule for '' or '.') is the map
                 # being populated, not one of its submaps
-                if resource_string == pt.curdir:
+                if relpath == pt.curdir:
                     continue
-                # Optionally trim extensions from files
+                # Optionally trim extensions from files (on the path
+                # itself: a dot in a directory name is no extension,
+                # whatever the delimiter of the keys is)
                 if trim_extensions and pt.isfile(full_file_path):
-                    resource_string = pt.splitext(resource_string)[0]
+                    relpath = pt.splitext(relpath)[0]
+                resource_string = relpath.replace(
+                    pt.sep, ResourceMap.split_char)
 
                 new_resource = None
                 if (pt.isdir(full_file_path)
